@@ -80,12 +80,15 @@ type linOpts struct {
 }
 
 type linEnv struct {
+	vals        map[string]ssa.Value // atom key -> value (for readable reports)
 	opts        linOpts
 	structLoads *rangeEnv // when set, loads of read-only cells are keyed structurally
 	memo map[ssa.Value]Lin
 }
 
-func newLinEnv(o linOpts) *linEnv { return &linEnv{opts: o, memo: map[ssa.Value]Lin{}} }
+func newLinEnv(o linOpts) *linEnv {
+	return &linEnv{opts: o, memo: map[ssa.Value]Lin{}, vals: map[string]ssa.Value{}}
+}
 
 func constIntOf(v ssa.Value) (int64, bool) {
 	c, ok := v.(*ssa.Const)
@@ -273,7 +276,79 @@ func (e *linEnv) norm(v ssa.Value) Lin {
 }
 
 func (e *linEnv) atom(v ssa.Value) Lin {
-	return Lin{T: map[string]int64{e.atomKey(v): 1}}
+	k := e.atomKey(v)
+	e.vals[k] = v
+	return Lin{T: map[string]int64{k: 1}}
+}
+
+// pretty renders a linear form with source-level names (stable across renumbering).
+func (e *linEnv) pretty(l Lin) string {
+	var ks []string
+	for k := range l.T {
+		ks = append(ks, k)
+	}
+	sort.Strings(ks)
+	var parts []string
+	for _, k := range ks {
+		n := k
+		if v, ok := e.vals[k]; ok {
+			n = srcName(v)
+		}
+		n = strings.ReplaceAll(n, "param:", "")
+		cf := l.T[k]
+		switch {
+		case cf == 1:
+			parts = append(parts, "+"+n)
+		case cf == -1:
+			parts = append(parts, "-"+n)
+		default:
+			parts = append(parts, fmt.Sprintf("%+d*%s", cf, n))
+		}
+	}
+	sort.Strings(parts)
+	out := strings.Join(parts, "")
+	if l.C != 0 || out == "" {
+		out += fmt.Sprintf("%+d", l.C)
+	}
+	return out
+}
+
+// srcName: a source-level name for an SSA value.
+func srcName(v ssa.Value) string {
+	switch a := v.(type) {
+	case *ssa.Parameter:
+		return a.Name()
+	case *ssa.Phi:
+		if a.Comment != "" {
+			return a.Comment
+		}
+	case *ssa.Extract:
+		if call, ok := a.Tuple.(*ssa.Call); ok {
+			if c := call.Call.StaticCallee(); c != nil {
+				return c.Name() + "()#" + fmt.Sprint(a.Index)
+			}
+		}
+	case *ssa.Call:
+		if c := a.Call.StaticCallee(); c != nil {
+			return c.Name() + "()"
+		}
+		if b, ok := a.Call.Value.(*ssa.Builtin); ok && len(a.Call.Args) == 1 {
+			return b.Name() + "(" + srcName(a.Call.Args[0]) + ")"
+		}
+	case *ssa.UnOp:
+		if p := valuePath(a); p != "" {
+			return p
+		}
+	case *ssa.Convert:
+		return srcName(a.X)
+	case *ssa.BinOp:
+		return "(" + srcName(a.X) + a.Op.String() + srcName(a.Y) + ")"
+	case *ssa.Const:
+		return a.Value.String()
+	case *ssa.Global:
+		return a.Name()
+	}
+	return "v"
 }
 
 func (e *linEnv) norm1(v ssa.Value) Lin {
